@@ -647,3 +647,22 @@ func (r *Ref) LinkSwap(s, s2 string) bool {
 	f := r.call("link.swap %s %s", s, s2)
 	return len(f) == 1 && f[0] == "ok"
 }
+
+// DeadlinesArmed replays the deadline calls recorded on a ScriptConn: which halves are armed now.
+func DeadlinesArmed(sc *vlib.ScriptConn) (read, write bool, trace string) {
+	var tr []string
+	for _, e := range sc.EventsCopy() {
+		switch e.Kind {
+		case "deadline":
+			read, write = e.Off != 0, e.Off != 0
+		case "rdeadline":
+			read = e.Off != 0
+		case "wdeadline":
+			write = e.Off != 0
+		default:
+			continue
+		}
+		tr = append(tr, e.String())
+	}
+	return read, write, strings.Join(tr, " ")
+}
